@@ -202,7 +202,11 @@ fn garbage(rng: &mut Rng) -> String {
 fn random_wire_faults(rng: &mut Rng) -> Vec<WireFault> {
     let mut v = Vec::new();
     for _ in 0..1 + rng.usize(2) {
-        v.push(match rng.usize(8) {
+        v.push(match rng.usize(9) {
+            8 => WireFault::JsonDupMember {
+                key: rng.pick(&["protected", "payload", "signature", "disclosures", "kb_jwt"]).to_string(),
+                value: rng.pick(&[json!("e30"), json!([]), json!(null), json!(""), json!(["WyJhIiwiYiJd"])]).clone(),
+            },
             0 => WireFault::Truncate(rng.usize(1500)),
             1 => WireFault::Garbage(garbage(rng)),
             2 => WireFault::InsertAt { pos: rng.usize(1500), text: rng.pick(&["~", ".", "~~", "\"", "{", "}", "é", "\u{0}", "=", "AAAA", "e30"]).to_string() },
@@ -337,7 +341,7 @@ fn gen_msg_c07(rng: &mut Rng, tier: Tier) -> msg::MsgScn {
             _ => {}
         }
     }
-    let plain = |b: Base, f: Fmt| Case { base: b, faults: vec![], wire: vec![], fmt: f, session: None, resolver: Resolver::Directory, kb_enc: KbEnc::Absent, extra: vec![], expand: None, hold_s: 0, escapes: false, extra_raw: None };
+    let plain = |b: Base, f: Fmt| Case { base: b, faults: vec![], wire: vec![], fmt: f, session: None, resolver: Resolver::Directory, kb_enc: KbEnc::Absent, extra: vec![], expand: None, hold_s: 0, escapes: false, extra_raw: None, member_order: None };
     let bases: Vec<Base> = (0..s.pres.len().min(3)).map(Base::Pres).chain(std::iter::once(Base::Cred(0))).collect();
     let key = s.issuers[0].key.clone();
     let alg = s.issuers[0].alg.clone().unwrap_or_else(|| "ES256".into());
